@@ -215,6 +215,18 @@ def build_route(route, c, typ):
         u = Table(sp.csr_matrix(B), **kw2)
         u.filter(['extra-sample'], axis='sample', invert=True, inplace=True)
         return u
+    if route == 'md_added_then_filtered':
+        # the content (no sample metadata) is what remains after metadata was added for one extra sample only and
+        # that sample was filtered away in place: no remaining entry carries anything
+        if c.samp_md is not None:
+            raise NotApplicable()
+        B = np.hstack([A, np.full((m, 1), 9.0)])
+        kw2 = dict(kw)
+        kw2['sample_ids'] = list(c.samp) + ['extra-sample']
+        u = Table(sp.csr_matrix(B), **kw2)
+        u.add_metadata({'extra-sample': {'note': 'only here'}}, axis='sample')
+        u.filter(['extra-sample'], axis='sample', invert=True, inplace=True)
+        return u
     raise ValueError(route)
 
 
@@ -223,10 +235,10 @@ LAYOUT_ROUTES = ['coo_dup', 'coo_cancel', 'csr_unsorted', 'csr_z1', 'csr_zall', 
                  'csc_inplace', 'csc_inplace_zall']
 HISTORY_ROUTES = ['sort_inverse', 'sort_inverse_samples', 'filter_all_inplace', 'filter_all_pred', 'subsample_full',
                   'transpose_twice', 'copy', 'copy_of_zall', 'rename_back', 'transform_ident', 'pa_binary',
-                  'zeroed_by_transform', 'filtered_from_larger']
+                  'zeroed_by_transform', 'filtered_from_larger', 'md_added_then_filtered']
 ALL_ROUTES = FORM_ROUTES + LAYOUT_ROUTES + HISTORY_ROUTES
 KEY_ROUTES = ['dense', 'csr_zall', 'csr_unsorted', 'csc_inplace', 'coo_cancel', 'sort_inverse', 'filter_all_inplace',
-              'copy_of_zall']
+              'copy_of_zall', 'md_added_then_filtered']
 
 
 def make(route, c, typ):
